@@ -21,6 +21,7 @@ import (
 	sharedConfig "lunar/shared-model/config"
 	"lunar/toolkit-core/urltree"
 
+	"github.com/negasus/haproxy-spoe-go/action"
 	"github.com/rs/zerolog"
 
 	"verif/harness/internal/proto"
@@ -141,19 +142,20 @@ func parseDiags(s string) ([]sharedConfig.Diagnosis, bool) {
 			return nil, false
 		}
 		out = append(out, sharedConfig.Diagnosis{Name: f[0], Enabled: f[1] == "1",
-			Config: sharedConfig.DiagnosisConfig{Void: &sharedConfig.VoidConfig{}}})
+			Config: sharedConfig.DiagnosisConfig{Void: &sharedConfig.VoidConfig{}}, Export: "file"})
 	}
 	return out, true
 }
 
 type state struct {
-	tree     *urltree.URLTree[int]
-	eps      []sharedConfig.EndpointConfig
-	glob     sharedConfig.Global
-	pt       *config.EndpointPolicyTree
-	codes    map[int]string // fixed-response status code -> remedy name
-	nextCode int
-	onlyFix  bool // every declared remedy so far is a fixed-response or retry one (precondition of `disp`)
+	tree         *urltree.URLTree[int]
+	eps          []sharedConfig.EndpointConfig
+	glob         sharedConfig.Global // globals in force (after a diagnosis-free revert: without diagnoses)
+	declaredGlob sharedConfig.Global
+	pt           *config.EndpointPolicyTree
+	codes        map[int]string // fixed-response status code -> remedy name
+	nextCode     int
+	onlyFix      bool // every declared remedy so far is a fixed-response or retry one (precondition of `disp`)
 }
 
 func (st *state) remedies(specs []remedySpec) []sharedConfig.Remedy {
@@ -255,9 +257,10 @@ func exec(c proto.Case, o *proto.Out) []string {
 				outs[i] = "bad-op"
 				break
 			}
-			st.glob = sharedConfig.Global{Remedies: st.remedies(rs), Diagnosis: ds}
+			st.declaredGlob = sharedConfig.Global{Remedies: st.remedies(rs), Diagnosis: ds}
+			st.glob = st.declaredGlob
 			outs[i] = "ok"
-		case w[0] == "build" && len(w) <= 2:
+		case (w[0] == "build" || w[0] == "load") && len(w) <= 2:
 			var order []int
 			if len(w) == 2 {
 				p, ok := proto.KV(w[1:], "perm")
@@ -293,8 +296,14 @@ func exec(c proto.Case, o *proto.Out) []string {
 					eps = append(eps, e)
 				}
 			}
+			if w[0] == "load" {
+				st.glob = st.declaredGlob
+				outs[i] = st.load(eps, o)
+				break
+			}
 			// the PRODUCTION wiring (YAML load / apply_policies): BuildPolicyData on a PoliciesConfig, which
 			// decides what reaches BuildEndpointPolicyTree
+			st.glob = st.declaredGlob
 			pd, err := config.BuildPolicyData(&sharedConfig.PoliciesConfig{Global: st.glob, Endpoints: eps}, false)
 			outs[i] = errClass(err)
 			o.Count("build-" + strings.SplitN(outs[i], ":other", 2)[0])
@@ -303,6 +312,22 @@ func exec(c proto.Case, o *proto.Out) []string {
 			} else {
 				st.pt = &pd.EndpointPolicyTree
 			}
+		case w[0] == "revert" && len(w) == 2 && (w[1] == "free" || w[1] == "last"):
+			if st.pt == nil {
+				outs[i] = "no-tree"
+				break
+			}
+			outs[i] = st.revert(w[1], o)
+		case w[0] == "spoe" && len(w) == 3:
+			if st.pt == nil {
+				outs[i] = "no-tree"
+				break
+			}
+			if !st.onlyFix {
+				outs[i] = "unsupported"
+				break
+			}
+			outs[i] = st.spoe(proto.Dec(w[1]), proto.Dec(w[2]), o)
 		case w[0] == "req" && len(w) == 3:
 			if st.pt == nil {
 				outs[i] = "no-tree"
@@ -407,6 +432,12 @@ func (st *state) disp(method, url string, o *proto.Out) string {
 	if err != nil {
 		return "err"
 	}
+	return st.readDispatch(acts, o, "disp")
+}
+
+// readDispatch decodes what DispatchOnRequest answered: which fixed-response remedy produced the early
+// response, how many remedies were active on the request leg and on the response leg of the early answer.
+func (st *state) readDispatch(acts action.Actions, o *proto.Out, tag string) string {
 	first, n, resp := "-", 0, 0
 	count := func(v any) int {
 		k := 0
@@ -436,12 +467,12 @@ func (st *state) disp(method, url string, o *proto.Out) string {
 		}
 	}
 	if first == "-" {
-		o.Count("disp-noop")
+		o.Count(tag + "-noop")
 		return "noop"
 	}
-	o.Count("disp-early")
+	o.Count(tag + "-early")
 	if resp > 0 {
-		o.Count("disp-early-response-leg-active")
+		o.Count(tag + "-early-response-leg-active")
 	}
 	return fmt.Sprintf("early=%s n=%d resp=%d", first, n, resp)
 }
